@@ -2455,28 +2455,25 @@ class Binop(Elemwise):
             columns = determine_column_projection(self, parent, dependents)
             columns = _convert_to_list(columns)
             columns = [col for col in self.columns if col in columns]
-            if (
-                isinstance(self.left, Expr)
-                and self.left.ndim > 1
-                and self.left.columns != columns
-            ):
-                left = self.left[columns]  # TODO: filter just the correct columns
-                changed = True
-            else:
-                left = self.left
-            if (
-                isinstance(self.right, Expr)
-                and self.right.ndim > 1
-                and self.right.columns != columns
-            ):
-                right = self.right[columns]  # TODO: filter just the correct columns
-                changed = True
-            else:
-                right = self.right
+            # the inputs need not have the same columns (the result has their
+            # union): every side keeps the requested columns that it has
+            left, right = self.left, self.right
+            if isinstance(left, Expr) and left.ndim > 1:
+                keep = [col for col in left.columns if col in columns]
+                if keep != left.columns:
+                    left = left[keep]
+                    changed = True
+            if isinstance(right, Expr) and right.ndim > 1:
+                keep = [col for col in right.columns if col in columns]
+                if keep != right.columns:
+                    right = right[keep]
+                    changed = True
             if not changed:
                 return
 
-            return type(parent)(type(self)(left, right), *parent.operands[1:])
+            # keep the remaining operands (MethodOperator: name, axis, level, fill_value)
+            new = self.substitute_parameters({"left": left, "right": right})
+            return type(parent)(new, *parent.operands[1:])
 
     def _node_label_args(self):
         return [self.left, self.right]
